@@ -117,6 +117,18 @@ def run(tier, replay=None):
                                           {"kind": "random", "seed": rng.randrange(1 << 30), "penv": rng.choice([0.5, 0.8, 0.95])},
                                           name="%s#o%d" % (p["name"], n), faults={rng.choice(jobs): "errors"},
                                           restart=True, orphans=True))
+    # the split / a chunk / the join of a stage is still running when mrp exits because an
+    # independent stage has failed: the restarted mrp starts a new attempt of it, and the old
+    # one reports its completion afterwards
+    sp_ = next(p for p in shapes.catalogue() if p["name"] == "split_and_indep")
+    ssem, _ = psrun.semantics([sp_])
+    sem.update(ssem)
+    for held in ("TOP.S[]/split/0", "TOP.S[]/main/1", "TOP.S[]/join/0"):
+        for n in range({"quick": 3, "thorough": 12}[tier]):
+            ospecs.append(psrun.make_spec(sp_, ssem["split_and_indep"],
+                                          {"kind": "random", "seed": rng.randrange(1 << 30), "penv": rng.choice([0.5, 0.8])},
+                                          name="split_and_indep#h%s%d" % (held.split("/")[1], n), faults={"TOP.B[]/main/0": "errors"},
+                                          hold=[held], restart=True, orphans=True))
     ores = psrun.run_specs(ospecs, nproc=16)
     recs = []
     for sp, r in zip(ospecs, ores):
